@@ -5,7 +5,9 @@ import (
 	"go/constant"
 	"go/token"
 	"go/types"
+	"regexp"
 	"sort"
+	"strconv"
 	"strings"
 
 	"golang.org/x/tools/go/ssa"
@@ -40,28 +42,29 @@ type Obligation struct {
 }
 
 type Ctx struct {
-	prog     *ssa.Program
-	pkg      *ssa.Package
-	cs       *Contracts
-	n        int
-	decls    []string
-	defs     []string
-	dts      map[string]bool
-	dtDecls  []string
-	eltSeq   map[string][2]string // elt accessor -> (Seq sort, element sort)
-	obls     []Obligation
-	strlits  map[string]string
-	heap0    map[string]string
-	heapSrt  map[string]string
-	notes    []string
-	globals  map[string]string
-	ifTags   map[string]int
-	oblN     int
-	specs    map[string]*specInfo
-	refuted  map[string]bool           // callee clauses known to be false on the real code (known findings): never assumed
-	addrVals map[string]Addr           // contract-level stand-ins for addresses of locals / elements
-	property string                    // the property being checked (some property-derived obligations are raised only under their property)
-	skipProp func(props []string) bool // ensures clauses of other properties are not checked in this run
+	prog       *ssa.Program
+	pkg        *ssa.Package
+	cs         *Contracts
+	n          int
+	decls      []string
+	defs       []string
+	dts        map[string]bool
+	dtDecls    []string
+	allocCache map[*ssa.Function]*allocSet
+	eltSeq     map[string][2]string // elt accessor -> (Seq sort, element sort)
+	obls       []Obligation
+	strlits    map[string]string
+	heap0      map[string]string
+	heapSrt    map[string]string
+	notes      []string
+	globals    map[string]string
+	ifTags     map[string]int
+	oblN       int
+	specs      map[string]*specInfo
+	refuted    map[string]bool           // callee clauses known to be false on the real code (known findings): never assumed
+	addrVals   map[string]Addr           // contract-level stand-ins for addresses of locals / elements
+	property   string                    // the property being checked (some property-derived obligations are raised only under their property)
+	skipProp   func(props []string) bool // ensures clauses of other properties are not checked in this run
 }
 
 type specInfo struct {
@@ -710,6 +713,10 @@ type Frame struct {
 	fnModInner      []modInner                      // "o[*][*]": inner maps of o the function may modify
 	curLoops        []*loopMod                      // loops (with modifies clauses) enclosing the call site of an inlined callee
 	loopOf          map[*ssa.BasicBlock][]*loopMod  // enclosing loops (with modifies clauses) of each block
+	callEntry       *State                          // inlined function literal: the state at this call (old() in its loop clauses)
+	iterPfx         string                          // distinguishes the iterators of an inlined function literal from those of its caller
+	closureLoops    bool                            // inlined function literal whose loops are annotated in the enclosing contract
+	freeNames       map[string]ssa.Value            // inlined function literal: captured variables by name
 	closures        map[ssa.Value]*ssa.MakeClosure  // closure values by SSA value
 	closCells       map[*ssa.Alloc]*ssa.MakeClosure // locals holding a closure (f := func(){...})
 	ptrCells        map[*ssa.Alloc]Addr             // locals that hold the address of a slice element / field (the p := &xs[i] idiom)
@@ -719,7 +726,8 @@ type Frame struct {
 	forcedKey       string // commutes check: the key the next map-range Next must yield
 	commute         bool
 	loopRangeIdx    map[int]*ssa.Alloc
-	loopIter        map[int]string // loop ordinal -> heap key of the iterator its header advances (iterseen / iterpos without a number)
+	loopIterInfo    map[int]iterInfo // loop ordinal -> iterator of a map range ("itermap" in loop clauses)
+	loopIter        map[int]string   // loop ordinal -> heap key of the iterator its header advances (iterseen / iterpos without a number)
 	loopHead        map[int]*State
 	iterN           int
 	iters           map[ssa.Value]iterInfo
@@ -1290,7 +1298,7 @@ func (fr *Frame) run(st0 *State) {
 		ordinal[h] = i + 1
 	}
 	fr.nLoops = len(hs)
-	if len(hs) > 0 && !fr.top {
+	if len(hs) > 0 && !fr.top && !fr.closureLoops {
 		panic(fmt.Sprintf("%s: cannot inline function with loops", funcKey(fn)))
 	}
 	// reverse postorder ignoring back edges
@@ -1342,6 +1350,10 @@ func (fr *Frame) run(st0 *State) {
 				if nx, ok := in.(*ssa.Next); ok {
 					if it, ok := fr.iters[nx.Iter]; ok {
 						fr.loopIter[ord] = it.key
+						if fr.loopIterInfo == nil {
+							fr.loopIterInfo = map[int]iterInfo{}
+						}
+						fr.loopIterInfo[ord] = it
 					}
 				}
 			}
@@ -1349,7 +1361,7 @@ func (fr *Frame) run(st0 *State) {
 			// invariant on entry
 			if fr.fc != nil {
 				for k, inv := range fr.fc.LoopInv[ord] {
-					phi := fr.evalClause(inv.Src, &Env{fr: fr, st: st, old: fr.entry, loopOrd: ord, binds: fr.ghost})
+					phi := fr.evalClause(inv.Src, &Env{fr: fr, st: st, old: fr.oldState(), loopOrd: ord, binds: fr.ghost})
 					fr.oblige(st, fmt.Sprintf("loop%d.inv%d.entry", ord, k+1), phi, posOf(b))
 				}
 			}
@@ -1448,10 +1460,10 @@ func (fr *Frame) run(st0 *State) {
 			fr.rawHavoc = nil
 			if fr.fc != nil {
 				for _, inv := range fr.fc.LoopInv[ord] {
-					fr.assume(st, fr.evalClause(inv.Src, &Env{fr: fr, st: st, old: fr.entry, loopOrd: ord, binds: fr.ghost}))
+					fr.assume(st, fr.evalClause(inv.Src, &Env{fr: fr, st: st, old: fr.oldState(), loopOrd: ord, binds: fr.ghost}))
 				}
 				if d, ok := fr.fc.LoopDec[ord]; ok && !strings.HasPrefix(d, "*") {
-					v := fr.evalExpr(d, &Env{fr: fr, st: st, old: fr.entry, loopOrd: ord, binds: fr.ghost})
+					v := fr.evalExpr(d, &Env{fr: fr, st: st, old: fr.oldState(), loopOrd: ord, binds: fr.ghost})
 					n := c.fresh("variant", "Int")
 					c.defs = append(c.defs, fmt.Sprintf("(assert (=> %s (= %s %s)))", st.pc, n, v.T))
 					li.variant0 = n
@@ -1463,7 +1475,7 @@ func (fr *Frame) run(st0 *State) {
 			}
 			fr.namePC(st, fmt.Sprintf("loop%d", ord))
 			fr.loopHead[ord] = st.clone()
-			if fr.commute && fr.top {
+			if fr.commute && (fr.top || fr.closureLoops) {
 				if why, skip := fr.fc.NoCommute[ord]; skip {
 					c.note("%s: loop %d: order-independence not checked (%s)", fr.fname, ord, why)
 				} else {
@@ -1489,13 +1501,13 @@ func (fr *Frame) run(st0 *State) {
 				li := loops[to]
 				if fr.fc != nil && li != nil {
 					for k, inv := range fr.fc.LoopInv[li.ord] {
-						phi := fr.evalClause(inv.Src, &Env{fr: fr, st: s2, old: fr.entry, loopOrd: li.ord, binds: fr.ghost})
+						phi := fr.evalClause(inv.Src, &Env{fr: fr, st: s2, old: fr.oldState(), loopOrd: li.ord, binds: fr.ghost})
 						fr.oblige(s2, fmt.Sprintf("loop%d.inv%d.preserve@b%d", li.ord, k+1, b.Index), phi, last.Pos())
 					}
 					if d, ok := fr.fc.LoopDec[li.ord]; ok && strings.HasPrefix(d, "*") {
 						c.note("%s: loop %d: termination is not proved (declared 'decreases *')", fr.fname, li.ord)
 					} else if ok {
-						v := fr.evalExpr(d, &Env{fr: fr, st: s2, old: fr.entry, loopOrd: li.ord, binds: fr.ghost})
+						v := fr.evalExpr(d, &Env{fr: fr, st: s2, old: fr.oldState(), loopOrd: li.ord, binds: fr.ghost})
 						fr.oblige(s2, fmt.Sprintf("loop%d.variant@b%d", li.ord, b.Index), fmt.Sprintf("(and (< %s %s) (>= %s 0))", v.T, li.variant0, li.variant0), last.Pos())
 					} else if _, isSliceRange := fr.loopRangeIdx[li.ord]; !hasNext(to) && !fr.fc.Auto && !isSliceRange {
 						fr.oblige(s2, fmt.Sprintf("loop%d.variant.missing", li.ord), "false", last.Pos())
@@ -1907,10 +1919,13 @@ func (fr *Frame) collectHeapEffects(body map[*ssa.BasicBlock]bool, depth int, se
 					}
 				})
 				if !fc.NoEffect && !fc.NoAlloc {
-					// the callee may allocate maps and arrays of any type
+					// the callee may allocate maps and arrays: of the types its code allocates (static scan)
+					as := c.allocKeysOf(callee)
 					for k := range c.heapSrt {
 						if strings.HasPrefix(k, "Mdom:") || strings.HasPrefix(k, "Mval:") || strings.HasPrefix(k, "E:") {
-							fr.rawHavoc = append(fr.rawHavoc, k)
+							if as.all || as.keys[k] {
+								fr.rawHavoc = append(fr.rawHavoc, k)
+							}
 						}
 					}
 				}
@@ -2358,7 +2373,7 @@ func (fr *Frame) step(st *State, in ssa.Instruction) bool {
 		fr.iterN++
 		switch u := x.X.Type().Underlying().(type) {
 		case *types.Map:
-			key := fmt.Sprintf("ITseen:%d", fr.iterN)
+			key := fmt.Sprintf("ITseen:%s%d", fr.iterPfx, fr.iterN)
 			ks := c.sortOf(u.Key())
 			c.heapSrt[key] = fmt.Sprintf("(Array %s Bool)", ks)
 			st.heap[key] = fmt.Sprintf("((as const (Array %s Bool)) false)", ks)
@@ -2366,7 +2381,7 @@ func (fr *Frame) step(st *State, in ssa.Instruction) bool {
 			fr.iterKeys[fr.iterN] = key
 		default:
 			if c.sortOf(x.X.Type()) == "Str" {
-				key := fmt.Sprintf("ITpos:%d", fr.iterN)
+				key := fmt.Sprintf("ITpos:%s%d", fr.iterPfx, fr.iterN)
 				c.heapSrt[key] = "Int"
 				st.heap[key] = "0"
 				fr.iters[x] = iterInfo{key: key, str: fr.val(x.X).T}
@@ -3035,9 +3050,25 @@ func (fr *Frame) applyContract(st *State, x *ssa.Call, callee *ssa.Function, fc 
 		// maps and backing arrays: the callee may create new ones; existing ones are unchanged except those in its modifies
 		before := binds["$allocBefore"].T
 		var ks []string
+		// only the heaps of types the callee can allocate (static scan of its code) or is allowed to modify change
+		as := c.allocKeysOf(callee)
+		touched := map[string]bool{}
+		for _, m := range cRefs {
+			touched["Mdom:"+m.tn], touched["Mval:"+m.tn] = true, true
+		}
+		for _, in := range cInner {
+			kd, kv := mapKeyNames(in.ot)
+			touched[kd], touched[kv] = true, true
+			if it, ok := in.ot.Elem().Underlying().(*types.Map); ok {
+				kd, kv = mapKeyNames(it)
+				touched[kd], touched[kv] = true, true
+			}
+		}
 		for k := range c.heapSrt {
 			if strings.HasPrefix(k, "Mdom:") || strings.HasPrefix(k, "Mval:") || strings.HasPrefix(k, "E:") {
-				ks = append(ks, k)
+				if as.all || as.keys[k] || touched[k] || (strings.HasPrefix(k, "E:") && len(modElemArrs) > 0) {
+					ks = append(ks, k)
+				}
 			}
 		}
 		sort.Strings(ks)
@@ -3221,6 +3252,8 @@ func (fr *Frame) execBody(h *ssa.BasicBlock, body map[*ssa.BasicBlock]bool, st0 
 	return fr.merge(backs, h), true
 }
 
+var commuteLocalDef = regexp.MustCompile(`^\(assert \((=>|=) \(?(pc|pe|m|mH|sv|ret|variant|hvH)_`)
+
 func (fr *Frame) checkCommutes(h *ssa.BasicBlock, ord int, st *State, isBack func(a, b *ssa.BasicBlock) bool) {
 	c := fr.ctx
 	var it *iterInfo
@@ -3236,6 +3269,19 @@ func (fr *Frame) checkCommutes(h *ssa.BasicBlock, ord int, st *State, isBack fun
 	}
 	body := naturalLoop(h, isBack)
 	ks := c.sortOf(it.mt.Key())
+	// the four what-if executions below must not leave their definitions in the queries of the obligations that follow
+	// (path conditions, merge and return values, loop frames of inner loops; definitions of cached objects - string
+	// literals, initial heaps, spec functions - stay, their names may be used again)
+	nDefs := len(c.defs)
+	defer func() {
+		kept := c.defs[:nDefs:nDefs]
+		for _, d := range c.defs[nDefs:] {
+			if !commuteLocalDef.MatchString(d) {
+				kept = append(kept, d)
+			}
+		}
+		c.defs = kept
+	}()
 	k1, k2 := c.fresh("ck1", ks), c.fresh("ck2", ks)
 	base := st.clone()
 	_, _, dom, _ := c.mapHeaps(base, it.mt)
@@ -3317,8 +3363,26 @@ func (fr *Frame) checkCommutes(h *ssa.BasicBlock, ord int, st *State, isBack fun
 		if v == w {
 			continue
 		}
-		if strings.HasPrefix(k, "E:") {
-			// backing arrays allocated by the two runs have different references: compare the arrays that existed before
+		if strings.HasPrefix(k, "Mval:") {
+			// the observable content of a map: values at the keys of its domain (the raw value array at absent keys is
+			// meaningless and not constrained by loop invariants, which speak about reads)
+			kd := "Mdom:" + k[len("Mval:"):]
+			if f := strings.Fields(c.heapSrt[k]); len(f) >= 4 && strings.HasPrefix(c.heapSrt[k], "(Array Int (Array ") && !strings.HasPrefix(f[3], "(") {
+				if d1, ok := a12.heap[kd]; ok || c.heap0[kd] != "" {
+					if !ok {
+						d1 = c.heapGetSort(a12, kd, c.heapSrt[kd])
+					}
+					c.n++
+					q, qk := fmt.Sprintf("r_q%d", c.n), fmt.Sprintf("k_q%d", c.n)
+					eqs = append(eqs, fmt.Sprintf("(forall ((%s Int) (%s %s)) (=> (and (<= %s %s) (select (select %s %s) %s)) (= (select (select %s %s) %s) (select (select %s %s) %s))))", q, qk, f[3], q, baseAlloc, d1, q, qk, v, q, qk, w, q, qk))
+					continue
+				}
+			}
+		}
+		if strings.HasPrefix(k, "E:") || strings.HasPrefix(c.heapSrt[k], "(Array Int ") {
+			// objects allocated by the two runs have different references: compare the objects that existed before the
+			// two iterations (a fresh object that is linked into an old one is compared through the old location, where
+			// the two runs hold different references and the comparison fails)
 			c.n++
 			q := fmt.Sprintf("r_q%d", c.n)
 			eqs = append(eqs, fmt.Sprintf("(forall ((%s Int)) (=> (<= %s %s) (= (select %s %s) (select %s %s))))", q, q, baseAlloc, v, q, w, q))
@@ -3411,6 +3475,13 @@ func (fr *Frame) requireSortedUse(h *ssa.BasicBlock, body map[*ssa.BasicBlock]bo
 	}
 }
 
+func (fr *Frame) oldState() *State {
+	if fr.callEntry != nil {
+		return fr.callEntry
+	}
+	return fr.entry
+}
+
 // inlineClosure executes a locally made closure (loop-free) on the caller's state; its free variables are the
 // captured cells of the enclosing frame, so writes to them are visible to the caller.
 func (fr *Frame) inlineClosure(st *State, cfn *ssa.Function, bindings []ssa.Value, args []Val, blk *ssa.BasicBlock) []Val {
@@ -3418,6 +3489,22 @@ func (fr *Frame) inlineClosure(st *State, cfn *ssa.Function, bindings []ssa.Valu
 	nf.curLoops = append(append([]*loopMod{}, fr.curLoops...), fr.loopOf[blk]...)
 	for i, p := range cfn.Params {
 		nf.vals[p] = args[i]
+	}
+	// a function literal with loops is inlined with the loop annotations "closure N loop M ..." of the enclosing
+	// function's contract; old() in those annotations is the state at this call of the literal
+	if i := strings.LastIndex(cfn.Name(), "$"); i >= 0 && fr.fc != nil {
+		if n, err := strconv.Atoi(cfn.Name()[i+1:]); err == nil && fr.fc.Closures[n] != nil {
+			nf.fc = fr.fc.Closures[n]
+			nf.closureLoops = true
+			nf.iterPfx = fr.iterPfx + "c" + cfn.Name()[i+1:] + "_"
+			nf.fname = fr.fname + cfn.Name()[i:]
+			nf.callEntry = st.clone()
+			nf.commute = fr.commute
+			nf.freeNames = map[string]ssa.Value{}
+			for _, fv := range cfn.FreeVars {
+				nf.freeNames[fv.Name()] = fv
+			}
+		}
 	}
 	captured := map[*ssa.Alloc]bool{}
 	for i, fv := range cfn.FreeVars {
